@@ -598,6 +598,8 @@ func TestC11(t *testing.T) {
 
 	var jl []any
 
+	seenRows := map[string]bool{}
+
 	for i, c := range cases {
 		rows, problems, flags := runGrpcCase(t, c)
 
@@ -618,6 +620,13 @@ func TestC11(t *testing.T) {
 		}
 
 		for _, row := range rows {
+			// the table is small: keep each distinct row once, with the first sequence that produced it
+			if seenRows[row] {
+				continue
+			}
+
+			seenRows[row] = true
+
 			f.add(row)
 			jl = append(jl, map[string]any{"case": c})
 		}
